@@ -47,8 +47,26 @@ func init() {
 				strings.Contains(a, "returnproto.Marshal(&pb.DatasetManagerSnapshot{Datasets:datasets})") &&
 				!strings.Contains(a, "sort.") && !strings.Contains(a, "Partitions") &&
 				strings.Contains(b, "for_,dataset:=rangedmSnapshot.Datasets{") &&
-				strings.Contains(b, "newDataset(id,*dataset,") && !strings.Contains(b, "sort.") && !strings.Contains(b, "Partitions")
+				strings.Contains(b, "newDataset(id,*dataset,") && !strings.Contains(b, "sort.") && !strings.Contains(b, ".Partitions")
 		}
+		// C14 (D17): installing a snapshot replaces the catalogue: datasets the snapshot does not list
+		// are dropped (as deleteDataset drops them), datasets that are present take its replica lists
+		replaces := false
+		if ps := funcDecl(dmf, "DatasetManager", "processSnapshot"); ps != nil {
+			b := norm(ps.Body)
+			iDrop := strings.Index(b, "forid,dataset:=rangethis.datasets{if_,exists:=listed[id];!exists{for_,partition:=rangedataset.partitions{this.allocator.unwatch(partition.id)}delete(this.datasets,id)}}")
+			iNew := strings.Index(b, "this.datasets[id],err=newDataset(id,*dataset,")
+			iSet := strings.Index(b, "partition.setNodes(partitionMeta.GetNodeIds())")
+			replaces = iDrop >= 0 && iNew > iDrop && iSet > iNew &&
+				strings.Contains(b, "for_,dataset:=rangedmSnapshot.Datasets{id,err:=uuid.FromBytes(dataset.GetId())iferr!=nil{returnerr}listed[id]=struct{}{}}")
+		}
+		pf2 := parseFile("storage/partition.go")
+		if sn := funcDecl(pf2, "partition", "setNodes"); sn == nil ||
+			!strings.Contains(norm(sn.Body), "this.removeNode(id)") || !strings.Contains(norm(sn.Body), "this.addNode(id)") ||
+			!strings.HasSuffix(norm(sn.Body), "this.meta.NodeIds=append([]uint64{},nodeIds...)}") {
+			replaces = false
+		}
+		o.def("catalogueSnapshotReplaces", "Bool", lbool(replaces), "processSnapshot drops datasets the snapshot does not list, creates the missing ones and sets the replica lists of the present ones (partition.setNodes)")
 		o.def("catalogueSnapshotVerbatim", "Bool", lbool(verbatim), "DatasetManager.snapshot marshals each dataset.Meta() as it is and processSnapshot passes each restored value to newDataset unchanged (no reordering of partitions)")
 
 		g := parseFile("storage/raft/group.go")
